@@ -107,8 +107,8 @@ func TestExamples(t *testing.T) {
 		case ex.wantErr != (r.Err != ""):
 			fail(vt.Failf("selfcheck/oracle", "reference interpreter: error expected=%v, got %q", ex.wantErr, r.Err))
 			continue
-		case !ex.wantErr && (!sameTree(ex.typed, ty) || (fieldKind[ex.field] == "str" && st != ex.str)):
-			fail(vt.Failf("selfcheck/oracle", "reference interpreter: want typed %#v str %q, got typed %#v str %#v", ex.typed, ex.str, ty, st))
+		case !ex.wantErr && (!sameTree(ex.typed, ty) || (fieldKind[ex.field] == "str" && st.project(0) != ex.str)):
+			fail(vt.Failf("selfcheck/oracle", "reference interpreter: want typed %#v str %q, got typed %#v str %#v", ex.typed, ex.str, ty, st.project(0)))
 			continue
 		}
 		// 2. the resolver agrees
